@@ -181,6 +181,7 @@ func run(job *Job) *Result {
 	pass1Known := map[string]int{}
 	pass1KnownModels := map[string]map[string]uint64{}
 	ex.TwoPass = job.TwoPass
+	ex.RepoPrefix = job.Repo + "/"
 	ex.Pass1Preempt = job.Pass1Pre
 	if job.TwoPass {
 		ws := ex.RunParallel(h, job.Workers)
